@@ -5,6 +5,7 @@ import (
 	"context"
 	"fmt"
 	"io"
+	"syscall"
 	"time"
 
 	astits "github.com/asticode/go-astits"
@@ -75,14 +76,29 @@ func hexHead(b []byte, n int) string {
 	return fmt.Sprintf("%x...(%d bytes)", b[:n], len(b))
 }
 
-// hangLimit bounds a single library call sequence that normally takes micro- to milliseconds. A call that has not
-// returned after this long is reported as non-termination (the goroutine is abandoned).
-const hangLimit = 20 * time.Second
+// hangLimit bounds a single library call sequence that normally takes micro- to milliseconds. A call is reported as
+// non-termination (the goroutine is abandoned) when it has not returned after hangLimit AND this process has burnt at
+// least hangCPU of processor time since the call began - so a starved process on an overloaded machine is not mistaken
+// for a spinning library - or, whatever the processor time (a blocked call), after hangWall.
+const (
+	hangLimit = 20 * time.Second
+	hangCPU   = 15 * time.Second
+	hangWall  = 10 * time.Minute
+)
+
+func processCPU() time.Duration {
+	var ru syscall.Rusage
+	if syscall.Getrusage(syscall.RUSAGE_SELF, &ru) != nil {
+		return 0
+	}
+	return time.Duration(ru.Utime.Nano() + ru.Stime.Nano())
+}
 
 // guarded runs f and panics (rapid and the sweeps report a panic as a failure) when it does not return in time.
 func guarded(what string, f func()) {
 	done := make(chan struct{})
 	var p interface{}
+	cpu0, t0 := processCPU(), time.Now()
 	go func() {
 		defer func() {
 			p = recover()
@@ -90,13 +106,21 @@ func guarded(what string, f func()) {
 		}()
 		f()
 	}()
-	select {
-	case <-done:
-		if p != nil {
-			panic(p)
+	timer := time.NewTimer(hangLimit)
+	defer timer.Stop()
+	for {
+		select {
+		case <-done:
+			if p != nil {
+				panic(p)
+			}
+			return
+		case <-timer.C:
+			if cpu := processCPU() - cpu0; cpu >= hangCPU || time.Since(t0) >= hangWall {
+				panic(fmt.Sprintf("%s did not return within %v (%v of processor time): the library call does not terminate", what, time.Since(t0).Round(time.Second), cpu.Round(time.Second)))
+			}
+			timer.Reset(5 * time.Second)
 		}
-	case <-time.After(hangLimit):
-		panic(fmt.Sprintf("%s did not return within %v: the library call does not terminate", what, hangLimit))
 	}
 }
 
